@@ -73,7 +73,7 @@ def weighted_tables(rec, weights, attrs, shape, cliques):
 
 class C19(Prop):
     id = 'C19'
-    level = 'exploration'
+    level = 'other'
     technique = 'run-time contract on the real estimator; weighted contingency tables and L2 loss recomputed by the harness (bounded)'
     explanation = ('Bounded tier only (labelled bounded, never counted as proved). PublicInference(public_dataset, metric="L2").estimate(measurements, total=T or None) '
                    'of the tree under verification is run on random public/private pairs: public record sets of 1..80 records (uniform, concentrated outside the '
@@ -97,9 +97,6 @@ class C19(Prop):
                    'so no descent lemma backs it (see DESIGN C19)']
     quick_budget_s = 80
     thorough_budget_s = 500
-
-    def deductive(self, tier):
-        return []
 
     def cases(self, tier, seed):
         import numpy as np
